@@ -3,6 +3,7 @@ package http
 var verifHarnesses = map[string]func(){
 	"VerifC18PosMapRoundTrip":      VerifC18PosMapRoundTrip,
 	"VerifC18PosMapHostile":        VerifC18PosMapHostile,
+	"VerifC06StreamHandler":        VerifC06StreamHandler,
 	"VerifC06StreamDB":             VerifC06StreamDB,
 	"VerifC20Invalid":              VerifC20Invalid,
 	"VerifC19Proxy":                VerifC19Proxy,
